@@ -23,7 +23,7 @@ CONSTANTS MaxSpine,       \* nested container levels (0 = scalar / leaf root)
           Alpha,          \* "tiny" | "small" | "full": step alphabet for paths of length <= 2
           Alpha3,         \* "none" | "p" | "small": alphabet for paths of length 3
           Reuse,          \* BOOLEAN: the same Assign spec object is evaluated a second time, on another target
-          Profiles        \* subset of {"plain", "vals", "miss", "missval", "missflag", "star", "reuse", "litval"}
+          Profiles        \* subset of {"plain", "vals", "miss", "missval", "missflag", "star", "dstar", "starmiss", "reuse", "litval"}
 
 VARIABLES exp,           \* what the law expects for the case (Ref(case))
           round,         \* 1: first evaluation of the spec object, 2: second evaluation (Reuse)
@@ -49,16 +49,27 @@ MkHeap(levels, leaf, side) ==
       mix == CASE side = "mixdict" -> Cell("dict", << <<VStr("a"), VInt(1)>>, <<VStr("0"), VInt(2)>>, <<VStr("b"), VInt(3)>> >>)
                [] side = "mixlist" -> Cell("list", <<VInt(1), VInt(2)>>)
                [] OTHER -> Cell("obj", << <<VStr("a"), VInt(1)>>, <<VStr("0"), VInt(2)>>, <<VStr("b"), VInt(3)>> >>)
+      \* side "twin": the root's second entry is a twin of its first: a parallel spine of cells n+Extra+1..
+      \* (levels 2..n, then a twin of a container leaf) EQUAL to the original spine but made of distinct cells
+      tw(i) == n + Extra + i - 1
+      twinleaf == IF IsRef(leaf) /\ leaf.a \in {-1, -2} THEN VRef(n + Extra + n) ELSE fix(leaf)
+      one(c, v) == IF c \in {"list", "tuple"} THEN Cell(c, <<v>>) ELSE Cell(PyCls(c), << <<Key1(c), v>> >>)
+      two(c, v, w) == IF c \in {"list", "tuple"} THEN Cell(c, <<v, w>>)
+                      ELSE Cell(PyCls(c), << <<Key1(c), v>>, <<Key2(c), w>> >>)
       cell(i) == LET c == levels[i] IN
-                 IF c \in {"list", "tuple"}
-                 THEN Cell(c, IF side = "absent" THEN <<first(i)>> ELSE <<first(i), second(i)>>)
-                 ELSE Cell(PyCls(c), IF side = "absent" THEN << <<Key1(c), first(i)>> >>
-                                     ELSE << <<Key1(c), first(i)>>, <<Key2(c), second(i)>> >>)
-  IN [i \in 1..(n + Extra) |-> IF i <= n THEN cell(i)
-                               ELSE IF i = n + 1 THEN Cell("dict", <<>>)
-                               ELSE IF i = n + 2 THEN Cell("list", <<>>)
-                               ELSE IF i = n + 3 THEN Cell("frozenset", <<VInt(1)>>)
-                               ELSE mix]
+                 IF side = "twin" THEN (IF i = 1 THEN two(c, first(1), IF n >= 2 THEN VRef(tw(2)) ELSE twinleaf)
+                                        ELSE one(c, first(i)))
+                 ELSE IF side = "absent" THEN one(c, first(i)) ELSE two(c, first(i), second(i))
+      twin(i) == one(levels[i], IF i < n THEN VRef(tw(i + 1)) ELSE twinleaf)       \* i in 2..n
+      ntwin == IF side = "twin" /\ n >= 1 THEN n ELSE 0
+  IN [i \in 1..(n + Extra + ntwin) |->
+        IF i <= n THEN cell(i)
+        ELSE IF i = n + 1 THEN Cell("dict", <<>>)
+        ELSE IF i = n + 2 THEN Cell("list", <<>>)
+        ELSE IF i = n + 3 THEN Cell("frozenset", <<VInt(1)>>)
+        ELSE IF i = n + 4 THEN mix
+        ELSE IF i < n + Extra + n THEN twin(i - n - Extra + 1)
+        ELSE Cell(IF IsRef(leaf) /\ leaf.a = -2 THEN "list" ELSE "dict", <<>>)]
 Root(levels, leaf) == LET n == Len(levels) IN
   IF n > 0 THEN VRef(1) ELSE IF IsRef(leaf) THEN VRef(n - leaf.a) ELSE leaf
 
@@ -83,11 +94,20 @@ Final3 == CASE Alpha3 = "p" -> PFinal [] Alpha3 = "small" -> SmallFinal [] OTHER
 Paths2 == {<<f>> : f \in Final2} \cup {<<p, f>> : p \in Parent2, f \in Final2}
 Paths3 == {<<p, q, f>> : p \in Parent3, q \in Parent3, f \in Final3}
 X == Step("x", VNone)                                   \* the wildcard '*'
+XX == Step("X", VNone)                                  \* the wildcard '**'
+DeepPaths == {<<XX, f>> : f \in Final2} \cup {<<p, XX, f>> : p \in Parent2, f \in Final2}
+             \cup {<<XX, p, f>> : p \in Parent2, f \in Final2}
 StarPaths == {<<X, f>> : f \in Final2} \cup {<<X, X, f>> : f \in Final2}
              \cup {<<p, X, f>> : p \in Parent2, f \in Final2} \cup {<<X, p, f>> : p \in Parent2, f \in Final2}
 \* three-segment paths (two absent segments, two factory calls) for the profiles with missing=;
 \* for the others only when the target is deep enough to have a parent at depth 2
-PathsFor(prof, h) == IF prof = "star" THEN StarPaths ELSE IF prof \in {"miss", "missval", "missflag", "reuse", "litval"} \/ Len(h) - Extra >= 2 THEN Paths2 \cup Paths3 ELSE Paths2
+\* a wildcard AFTER a segment that may be absent, with missing=: the absent segments up to the wildcard
+\* are created, the wildcard then ranges over a new empty container
+W == {X, XX}
+StarMissPaths == {<<p, w, f>> : p \in Parent2, w \in W, f \in TinyFinal}
+                 \cup {<<p, q, w, f>> : p \in TinyParent, q \in TinyParent, w \in W, f \in TinyFinal}
+PathsFor(prof, h) == IF prof = "star" THEN StarPaths ELSE IF prof = "dstar" THEN DeepPaths
+                     ELSE IF prof = "starmiss" THEN StarMissPaths ELSE IF prof \in {"miss", "missval", "missflag", "reuse", "litval"} \/ Len(h) - Extra >= 2 THEN Paths2 \cup Paths3 ELSE Paths2
 
 \* ---- values, missing, faults ---------------------------------------------------------
 Lit(v) == [k |-> "lit", v |-> v, steps |-> <<>>]
@@ -119,11 +139,12 @@ ValsFor(prof) == CASE prof = "vals" -> OtherVals
                    [] prof = "missval" -> {VT(<<>>), VSpec(<<Step("P", VStr("a"))>>), VT(<<Step("[", VStr("b"))>>)}
                    [] prof = "litval" -> LitVals
                    [] OTHER -> {Lit(VInt(9))}
-MissFor(prof) == CASE prof \in {"plain", "vals", "star"} -> NoMiss [] prof = "miss" -> Factories
+MissFor(prof) == CASE prof \in {"plain", "vals", "star", "dstar"} -> NoMiss
+                   [] prof = "starmiss" -> {Miss("dict", 0), Miss("dict", 1), Miss("obj", 0), Miss("list", 0)} [] prof = "miss" -> Factories
                    [] prof = "reuse" -> {Miss("dict", 0), Miss("obj", 0)}
                    [] prof = "litval" -> {Miss("none", 0), Miss("dict", 0)}
                    [] OTHER -> {Miss("dict", 0)}
-FlagsFor(prof, h) == CASE prof \in {"plain", "star"} -> {NoFlags(h)} \cup OneFlag(h) [] prof = "missflag" -> OneFlag(h)
+FlagsFor(prof, h) == CASE prof \in {"plain", "star", "dstar"} -> {NoFlags(h)} \cup OneFlag(h) [] prof = "missflag" -> OneFlag(h)
                        [] OTHER -> {NoFlags(h)}
 
 Blank == [kind |-> "assign", heap0 |-> <<>>, flags |-> <<>>, root |-> VNone, steps |-> <<>>, val |-> Lit(VNone),
